@@ -74,6 +74,7 @@ Proof.
     + intros q cq Hfq. change (findq h q = Some cq) in Hfq.
       destruct (Hq3 q cq Hfq) as [x [p [cx [G1 [G2 [G3 [G4 G5]]]]]]].
       exists x, p, cx. repeat split; auto.
+  - exact (hi_qkind D h HI).
   - exact (hi_drag D h HI).
   - intros a Ha. change (a < Pos.succ (nextw h))%positive.
     destruct (Pos.eq_dec a w) as [E|E]; [subst a; unfold w; lia|].
